@@ -28,11 +28,11 @@ def _load(pid):
         out = []
     # independently seeded changes (section 12 of DESIGN.md): every confirmed breaking seed of this property must be reported,
     # every behaviour-preserving twin must leave the property's check silent
-    for x in ("A", "B"):
+    for x in ("A", "B", "C", "D", "E", "F"):
         d = os.path.join(SEEDED, "%s-%s" % (pid.upper(), x), "patch.diff")
         if os.path.isfile(d):
             out.append({"id": "seed-%s-%s" % (pid.upper(), x), "rule": None, "diff": d, "tier": _seed_tier(os.path.dirname(d)), "what": "independently seeded breaking change (seeded/%s-%s)" % (pid.upper(), x)})
-    for k in (1, 2, 3, 4):
+    for k in range(1, 13):
         d = os.path.join(SEEDED, "twins", "%s-T%d.diff" % (pid.upper(), k))
         if os.path.isfile(d):
             out.append({"id": "twin-%s-T%d" % (pid.upper(), k), "kind": "twin", "diff": d, "what": "independently written behaviour-preserving edit (seeded/twins)"})
